@@ -3,6 +3,7 @@
 mod absval;
 mod gen;
 mod jtree;
+mod ops_capi;
 mod ops_defs;
 mod ops_enc;
 mod ops_json;
@@ -30,6 +31,7 @@ fn dispatch(vec: &J, out: &mut Out, wk: &mut Option<worker::Worker>) -> Result<(
         "enc" => ops_enc::run(vec).map(|e| out.emit(e)),
         "defs" => ops_defs::run(vec, out),
         "ns" => ops_ns::run(vec, out),
+        "capi" => ops_capi::run(vec, out),
         "time" => ops_time::run(vec, out),
         "filter" => ops_filter::run(vec, out, wk.get_or_insert_with(worker::Worker::new)),
         "dec" | "stab" => ops_total::run(vec, out, wk.get_or_insert_with(worker::Worker::new)),
@@ -83,6 +85,10 @@ fn main() {
                     }
                 }
                 "fuzz" => ops_total::rec_fuzz(&mut out, seed, n),
+                "capi" => {
+                    let len: usize = arg(&args, "--len").and_then(|s| s.parse().ok()).unwrap_or(30);
+                    ops_capi::rec(&mut out, seed, n, len);
+                }
                 "ns" => {
                     if let Err(e) = ops_ns::rec(&mut out, seed, n) {
                         eprintln!("TOOL-ERROR: {e}");
